@@ -4,7 +4,8 @@ package PVM
 // It only assembles, executes and records; every expected value comes from spec/host/AccumulateInv.tla.
 //
 // A case: {"id","tag","calls":[{"op":"write","k":[..],"v":[..]} | {"op":"transfer","amt":n} | {"op":"new","c":tag}
-//                              | {"op":"yield","h":tag} | {"op":"provide","b":[..]} | {"op":"checkpoint"}],
+//                              | {"op":"yield","h":tag} | {"op":"provide","b":[..]} | {"op":"checkpoint"}
+//                              | {"op":"upgrade","c":tag} | {"op":"solicit","h":tag,"z":n}],
 //          "ends":[{"kind":"halt0|halt32|halt5|trap|spin|oog","k":n,"d":"min|max"}]}
 // Each behaviour (call sequence + ending) is assembled into a real accumulate program (load_imm_64 / ecalli
 // sequences, operands in the read-write segment of a standard program blob), installed as the code of service
@@ -114,6 +115,15 @@ func (a *vfaAsm) call(c map[string]any) {
 		a.loadImm64(8, a.put(b))
 		a.loadImm64(9, uint64(len(b)))
 		a.ecalli(int(ProvideOp))
+	case "upgrade":
+		a.loadImm64(7, a.put(vfaRep(vfd.I(c["c"]), 32)))
+		a.loadImm64(8, 3)
+		a.loadImm64(9, 4)
+		a.ecalli(int(UpgradeOp))
+	case "solicit":
+		a.loadImm64(7, a.put(vfaRep(vfd.I(c["h"]), 32)))
+		a.loadImm64(8, uint64(vfd.I(c["z"])))
+		a.ecalli(int(SolicitOp))
 	case "checkpoint":
 		a.ecalli(int(CheckpointOp))
 	default:
